@@ -804,3 +804,52 @@ Proof.
   eexists; eexists. split; [vm_compute; reflexivity|]. split; [reflexivity|]. split; [reflexivity|].
   split; [vm_compute; reflexivity|]. split; [vm_compute; reflexivity|]. vm_compute. discriminate.
 Qed.
+
+(* the hypotheses of C19_fragments_decode_multi are satisfiable and its conclusion computes: the same two-track init, ONE
+   multi-track fragment over both ids with alternating runs and an addition to an unknown id (refused), optimisation on: each
+   track reads back, through its own trex of the decoded init, exactly what was added to it *)
+Example C19_fragments_decode_multi_hyp :
+  let s := snd (run ex_avc_parse ex_hevc_parse (nth 92 small_scope [])) in
+  let sm k := C05Model.mkSample 16842752 10 k 0 in
+  let fops := [C05FragModel.OFullTo 2 (sm 1) 100 [1]; C05FragModel.OFullTo 2 (sm 2) 110 [2; 3]; C05FragModel.OFullTo 1 (sm 1) 0 [4];
+               C05FragModel.OFullTo 9 (sm 1) 0 [9]; C05FragModel.OFullTo 2 (sm 1) 120 [5]] in
+  NoDup (map tk_id (traks s)) /\ forallb C05GhostProofs.is_full_to fops = true
+  /\ Forall (fun o => C05ReadProofs.sized_f (C05GhostProofs.op_full o)) fops
+  /\ C05RoundProofs.consistent (C05RoundProofs.added_fulls [1; 2] 2 fops)
+  /\ exists ts fr fe,
+       tree_of s = Some ts
+       /\ C05FragModel.run_ops (C05FragModel.with_extras (C05FragModel.create_multi (map tk_id (traks s))) 77 9 12 [0; 26]) fops
+          = ([C05FragModel.COk; C05FragModel.COk; C05FragModel.COk; C05FragModel.CErr; C05FragModel.COk], Some fr)
+       /\ C05FragModel.encode_frag true fr = Ok fe
+       /\ C05FragModel.get_full_samples (C05FragModel.decoded_view fe 1000 []) (get_trex ts 2)
+          = Ok [C05Model.mkFull (sm 1) 100 [1]; C05Model.mkFull (sm 2) 110 [2; 3]; C05Model.mkFull (sm 1) 120 [5]]
+       /\ C05FragModel.get_full_samples (C05FragModel.decoded_view fe 1000 []) (get_trex ts 1)
+          = Ok [C05Model.mkFull (sm 1) 0 [4]].
+Proof.
+  split; [vm_compute; repeat constructor; cbn; intuition congruence|]. split; [reflexivity|]. split; [repeat constructor|].
+  split; [split; [cbn; lia|reflexivity]|].
+  eexists; eexists; eexists. split; [vm_compute; reflexivity|]. split; [vm_compute; reflexivity|].
+  split; [vm_compute; reflexivity|]. split; vm_compute; reflexivity.
+Qed.
+
+(* ... and of C19_fragments_decode_modes, metadata-only mode: AddSamples of two samples, an AddSampleToTrack for another id
+   (refused), AddSample; the caller writes the 6 data bytes after the fragment *)
+Example C19_fragments_decode_modes_hyp :
+  let s := snd (run ex_avc_parse ex_hevc_parse (nth 92 small_scope [])) in
+  let sm k := C05Model.mkSample 16842752 10 k 0 in
+  let fops := [C05FragModel.OMetas [sm 2; sm 1] 500; C05FragModel.OMetaTo 9 (sm 1) 0; C05FragModel.OMeta (sm 3) 520] in
+  let FL := [C05Model.mkFull (sm 2) 0 [1; 2]; C05Model.mkFull (sm 1) 0 [3]; C05Model.mkFull (sm 3) 0 [4; 5; 6]] in
+  exists ts fr fe,
+    tree_of s = Some ts
+    /\ C05FragModel.run_ops (C05FragModel.with_extras (C05FragModel.create_fragment 2) 20 0 8 [5]) fops
+       = ([C05FragModel.COk; C05FragModel.CErr; C05FragModel.COk], Some fr)
+    /\ C05SingleProofs.mode_ok fops [C05FragModel.COk; C05FragModel.CErr; C05FragModel.COk] FL [1; 2; 3; 4; 5; 6]
+    /\ map C05Model.fs_s FL = C05HistProofs.added1 2 fops /\ Forall C05ReadProofs.sized_f FL
+    /\ C05FragModel.encode_frag true fr = Ok fe
+    /\ C05FragModel.get_full_samples (C05FragModel.decoded_view fe 300 [1; 2; 3; 4; 5; 6]) (get_trex ts 2)
+       = Ok [C05Model.mkFull (sm 2) 500 [1; 2]; C05Model.mkFull (sm 1) 510 [3]; C05Model.mkFull (sm 3) 520 [4; 5; 6]].
+Proof.
+  eexists; eexists; eexists. split; [vm_compute; reflexivity|]. split; [vm_compute; reflexivity|].
+  split; [right; left; split; reflexivity|]. split; [reflexivity|]. split; [repeat constructor|].
+  split; [vm_compute; reflexivity|]. vm_compute. reflexivity.
+Qed.
